@@ -156,7 +156,9 @@ static void runBuffer(Toks& t, Out& o)
                 }
                 (void)d0;
             }
-            size_t np = region.find("Too many memory leaks");
+            // the notice counts as given when its whole text was stored (what the model's `notice` says); a notice cut off by the end of
+            // the buffer may still hold the words "Too many memory leaks" (cut after 45..67 of its 68 characters)
+            size_t np = region.find("\netc etc etc etc. !!!! Too many memory leaks to report. Bailing out\n");
             bool notice = np != std::string::npos;
             // complete entries: header line up to "Content:\n" and ceil(size/16) dump lines
             size_t endEntries = notice ? region.rfind('\n', np) : (fp != std::string::npos ? fp : region.size());
